@@ -141,6 +141,7 @@ struct Hooks {
     std::function<void(World &, int node, const uint8_t *p, size_t n)> on_stdout_fd;    // write(1,...)
     std::function<void(World &, int node, const std::string &line)> on_stdout_line;     // printf lines
     std::function<void(World &, int node, int code, bool via_exit)> on_task_exit;
+    std::function<void(World &, int node, size_t valid_datagrams)> on_close_with_queue;  // a socket is closed while undamaged talker datagrams wait in its queue
     std::function<void(World &, int node)> on_handler_done;
     std::function<void(World &, int node, uint64_t bytes, unsigned times)> on_stack_growth;
     std::function<void(World &, int node, int now_open, int first_open)> on_fd_growth;
